@@ -337,7 +337,10 @@ def check_apply(rng):
     S = so.SymmetryOperation
     rot, digs = random_op(rng)
     R = np.array(rot, dtype=float).reshape(3, 3)
-    s = S(R, np.array(digs) / 12)
+    # operations are also built from integer arrays (a rotation part IS an integer matrix)
+    how = rng.choice(["float", "float", "int"])
+    Rin = R if how == "float" else np.array(rot, dtype=int).reshape(3, 3)
+    s = S(Rin, np.array(digs) / 12)
     pts = np.array([[rng.uniform(-2, 2) for _ in range(3)] for _ in range(rng.randint(1, 5))])
     a3 = s.apply(pts)
     a4 = s.apply(np.hstack([pts, np.ones((len(pts), 1))]))
